@@ -631,6 +631,31 @@ def fam_pairpos1(gm, kn, ext):
     return "GPOS", [_wrap_ext([st], "GPOS", ext)], [("tst1", [0])], ck, n * m
 
 
+def fam_pairpos1then2(gm, kn, ext):
+    """One lookup: a PairPos format 1 subtable (n first x m second glyphs) FOLLOWED by a class subtable
+    that covers the same first glyphs and gives every (first, second) pair - also two second glyphs the
+    glyph pairs do not list - the value CV: the glyph pairs are exceptions in front of it, and whatever
+    a split does to the first subtable, its halves have to stay in front."""
+    n, m = kn["n"], kn["m"]
+    F, S, CV = 10, 1500, -77
+    pairs = {}
+    for i in range(n):
+        for j in range(m):
+            pairs[(gn(F + i), gn(S + j))] = (B.buildValue({"XAdvance": val(i, j)}), None)
+    st1 = B.buildPairPosGlyphsSubtable(pairs, gm)
+    firsts = tuple(gn(F + i) for i in range(n))
+    seconds = tuple(gn(S + j) for j in range(m + 2))
+    st2 = B.buildPairPosClassesSubtable({(firsts, seconds): (B.buildValue({"XAdvance": CV}), None)}, gm)
+    ck = Checks()
+    for i in range(n):
+        for j in range(m):
+            ck.add("rule", [F + i, S + j], [(F + i, adv_of(F + i) + val(i, j), 0, 0, 0)] + plain([S + j]))
+        for j in (m, m + 1):
+            ck.add("rule", [F + i, S + j], [(F + i, adv_of(F + i) + CV, 0, 0, 0)] + plain([S + j]))
+        ck.add("neg", [F + i, Y_OUT], plain([F + i, Y_OUT]))
+    return "GPOS", [_wrap_ext([st1, st2], "GPOS", ext)], [("tst1", [0])], ck, n * (m + 2)
+
+
 def _pp2_classes(c1, c2):
     # class k of side 1: glyphs 1000+2k (and 1000+2k+1 when k is even); side 2 from 6000
     cl1 = [tuple(gn(1000 + 2 * k + d) for d in range(2 if k % 2 == 0 else 1)) for k in range(c1)]
@@ -650,6 +675,13 @@ def fam_pairpos2(gm, kn, ext):
     st = B.buildPairPosClassesSubtable(pairs, gm)
     ck = Checks()
     gid = lambda name: int(name[1:])
+    if kn.get("stray"):
+        # ClassDef1 also classifies glyphs that are NOT in the subtable's Coverage (as when one class
+        # definition is shared by several subtables): they are never first glyphs of this subtable
+        for q in range(3):
+            st.ClassDef1.classDefs[gn(900 + q)] = 1 + q % max(1, c1 - 1)
+            for l in range(min(c2, 4)):
+                ck.add("neg", [900 + q, gid(cl2[l][0])], plain([900 + q, gid(cl2[l][0])]))
     for k in range(c1):
         for l in range(c2):
             v, v2 = (val(k, l), val(l, k)) if k % G == l % G else (0, 0)
@@ -858,7 +890,7 @@ def fam_chain(gm, kn, ext):
 
 
 FAMILIES = {
-    "pairpos1": fam_pairpos1, "pairpos2": fam_pairpos2, "markbase": fam_markbase, "singlepos2": fam_singlepos2,
+    "pairpos1": fam_pairpos1, "pairpos1then2": fam_pairpos1then2, "pairpos2": fam_pairpos2, "markbase": fam_markbase, "singlepos2": fam_singlepos2,
     "ligature": fam_ligature, "multiple": fam_multiple, "alternate": fam_alternate,
     "manylookups": fam_manylookups, "manysubtables": fam_manysubtables, "chain": fam_chain,
 }
@@ -942,6 +974,7 @@ def _p(fam, base, knob, T, big=(), **kw):
 # bisection on the unchanged tree; the per-family below/above witnesses keep the calibration honest)
 PRIMARY = [
     _p("pairpos1", dict(n=100), "m", 165, big=(350, 545)),
+    _p("pairpos1then2", dict(n=100), "m", 163, big=(350,)),
     _p("pairpos2", dict(c2=64), "c1", 246, big=(520,)),
     _p("markbase", dict(nm=64, nc=32), "nb", 257, big=(540, 850)),
     _p("singlepos2", dict(), "n", 8191, big=(11900,)),
@@ -1044,6 +1077,8 @@ class Overflow(Unit):
                     # ext=1: the class kerning sits behind Extension subtables when it is compacted
                     for ext in (0, 1):
                         out.append(["pairpos2", dict(c1=24, c2=20, G=G), hbc, lv, ext, None])
+                    # ClassDef1 entries for glyphs outside the Coverage must stay inert through compaction
+                    out.append(["pairpos2", dict(c1=24, c2=20, G=G, stray=1), hbc, lv, 0, None])
         if not quick:
             for lv in levels:
                 out.append(["pairpos1", dict(n=100, m=166), "False", lv, 0, None])
